@@ -101,7 +101,20 @@ def st_idiom(draw, allow_load_q=False):
                 # without writing it again
                 info["load_single"] = True
                 tail = [f"{draw(st.sampled_from(GATES1))} {QL}"]
-            return [f"set {ra} {a}", f"set {rb} {b}", f"{g2} {ra} {rb}"] + tail
+            noise = []
+            if draw(st.integers(0, 2)) == 0:
+                # a classical register with the same index as one of the qubit registers is written in between
+                idx = draw(st.sampled_from([ra, rb]))[1:]
+                # (C15 is left alone: the transpiler's own no-op at a past-the-end target is `set C15 1337`, a register SDK code never uses)
+                noise = [f"set {draw(st.sampled_from(['C', 'M'])) if idx != '15' else 'M'}{idx} {draw(st.integers(0, nq - 1))}"]
+                info["same_index_classical_set"] = True
+            return [f"set {ra} {a}", f"set {rb} {b}"] + noise + [f"{g2} {ra} {rb}"] + tail
+        if k == 8 and nq <= 4 and not info.get("sdk_mov") and draw(st.booleans()):
+            # what the SDK emits when it moves a fresh pair to memory: the state of the communication qubit (id 0) is moved into
+            # a freshly initialised qubit, both named through classical registers whose values are computed at run time
+            info["sdk_mov"] = True
+            return [f"set Q9 {nq}", "qalloc Q9", "init Q9", "set R7 0", "set R8 0", f"set R9 {nq}", "add R8 R8 R9", "mov R7 R8",
+                    f"set {ra} {nq}", f"{draw(st.sampled_from(GATES1))} {ra}", f"set {ra} 0", "init " + ra]
         if k == 8:
             q = draw(st.integers(0, nq - 1))
             return [f"set {ra} {q}", f"meas {ra} M0", f"store M0 @0[{draw(st.integers(0, 5))}]"]
@@ -335,7 +348,7 @@ def shard(ctx: Ctx) -> None:
             return
         i = case["info"]
         nt = i["cc"] or i["end_label"] or i["ifs"] > 0
-        labels = ["idiom", f"nq:{case['nq']}", "debug" if case["debug"] else "nodebug"] + [k for k in ("cc", "end_label", "stress", "label_at_0", "load_single", "full16") if i.get(k)] + (["loop"] if i["loops"] else []) + (["if"] if i["ifs"] else [])
+        labels = ["idiom", f"nq:{case['nq']}", "debug" if case["debug"] else "nodebug"] + [k for k in ("cc", "end_label", "stress", "label_at_0", "load_single", "full16", "sdk_mov", "same_index_classical_set") if i.get(k)] + (["loop"] if i["loops"] else []) + (["if"] if i["ifs"] else [])
         stt.case(str(case.get("prologue")) + case["text"] + str(case["outcomes"]) + str(case["debug"]), nt, labels, sample={"text": case["text"], "debug": case["debug"]} if len(case["text"]) < 700 else None)
 
     allow = KF_LOAD not in ctx.open_findings
